@@ -164,6 +164,31 @@ func gen(r *Rng, tier string, emit Emit) {
 		c := editops.FlashCase(rr, editops.GenCase(rr, rr.Pick(0, 0, 1), rr.Range(1, 3)))
 		emit("P", "p_c02", append([]string{H(c.Img)}, editops.Tokens(c.Ops)...)...)
 	}
+	// an edit that cannot fit => error at save and no output file: on bare BIOS regions (model
+	// correspondence too) and, two cases in three, inside a flash image with descriptor
+	nnf := 60
+	if tier == "thorough" {
+		nnf = 1500
+	}
+	for it := 0; it < nnf; it++ {
+		rr := r.Fork(uint64(6950000 + it))
+		c, ok := editops.GenCaseNoFit(rr)
+		if !ok {
+			continue
+		}
+		if it%3 != 0 {
+			c = editops.FlashCase(rr, c)
+			emit("P", "p_c02_nofit", append([]string{H(c.Img)}, editops.Tokens(c.Ops)...)...)
+			emit("P", "p_c02", append([]string{H(c.Img)}, editops.Tokens(c.Ops)...)...)
+			continue
+		}
+		emitTables(emit, c)
+		args := append([]string{H(c.Img)}, editops.Tokens(c.Ops)...)
+		emit("P", "p_c02_nofit", args...)
+		if len(c.Img) <= modelMax {
+			emit("C", "edit", args...)
+		}
+	}
 }
 
 func emitTables(emit Emit, c editops.ECase) {
